@@ -1,5 +1,299 @@
-//! End-to-end arm through lance::Dataset (filled in below).
-use hxlib::util::{Args, Sink};
+//! End-to-end arm: real datasets through lance::Dataset (local fs, memory store, and a custom non-local
+//! store without lexical ordering), with appends, deletes, restores, detached commits and the V1->V2
+//! migration. After every step the `_versions` directory is observed and
+//!   * checkout_latest / latest_version_id / versions() are compared with what the history committed
+//!     (direct oracle), and
+//!   * the observed directory listing is fed to the model (`chk_latest`, `chk_versions`).
+use crate::discover::{names_coq, LRes};
+use crate::gen::*;
+use crate::shuf::ShufStore;
+use arrow_array::{Int32Array, RecordBatch, RecordBatchIterator};
+use arrow_schema::{DataType, Field, Schema as ArrowSchema};
+use futures::TryStreamExt;
+use hxlib::util::{catch, coq, Args, Rng, Sink, Stream};
+use lance::dataset::{InsertBuilder, WriteMode, WriteParams};
+use lance::Dataset;
+use lance_io::object_store::ObjectStoreParams;
+use lance_table::io::commit::ManifestNamingScheme;
+use object_store::memory::InMemory;
+use object_store::path::Path;
+use serde_json::json;
+use std::collections::BTreeSet;
+use std::sync::Arc;
 use tokio::runtime::Runtime;
 
-pub fn run(_args: &Args, _sink: &mut Sink, _rt: &Runtime) {}
+const REQ: &str = "Common.Base Store.Model_Naming";
+
+fn schema() -> Arc<ArrowSchema> {
+    Arc::new(ArrowSchema::new(vec![Field::new("id", DataType::Int32, false)]))
+}
+fn batch(start: i32, n: i32) -> RecordBatch {
+    RecordBatch::try_new(schema(), vec![Arc::new(Int32Array::from((start..start + n).collect::<Vec<i32>>()))]).unwrap()
+}
+
+#[derive(Clone, Copy, Debug, PartialEq)]
+enum Place {
+    Local,
+    Memory,
+    /// custom store handed over through ObjectStoreParams.object_store: non-local, flag defaults to false, scrambled listing
+    Custom,
+}
+
+struct Hist {
+    ds: Dataset,
+    attached: BTreeSet<u64>,
+    detached: Vec<u64>,
+    v2: bool,
+    place: Place,
+    params: WriteParams,
+    next_id: i32,
+    _tmp: Option<tempfile::TempDir>,
+    log: Vec<String>,
+}
+
+fn versions_dir(ds: &Dataset) -> Path {
+    let p = &ds.manifest_location().path;
+    let parts: Vec<_> = p.parts().collect();
+    Path::from_iter(parts[..parts.len() - 1].iter().cloned())
+}
+
+struct Obs {
+    read_dir: Vec<String>,
+    listing: Vec<String>,
+    is_local: bool,
+    flag: bool,
+}
+
+fn observe(rt: &Runtime, ds: &Dataset) -> Obs {
+    let store = ds.object_store();
+    let vdir = versions_dir(ds);
+    let is_local = store.is_local();
+    let read_dir = if is_local {
+        std::fs::read_dir(lance_io::local::to_local_path(&vdir)).map(|rd| rd.flatten().map(|e| e.file_name().to_string_lossy().to_string()).collect()).unwrap_or_default()
+    } else {
+        vec![]
+    };
+    let metas: Vec<object_store::ObjectMeta> = rt.block_on(store.list(Some(vdir)).try_collect()).unwrap();
+    let listing = metas.iter().map(|m| m.location.filename().unwrap().to_string()).collect();
+    Obs { read_dir, listing, is_local, flag: store.list_is_lexically_ordered }
+}
+
+fn check_state(rt: &Runtime, sink: &mut Sink, st_latest: &mut Stream, st_vers: &mut Stream, h: &Hist, step: &str) {
+    let obs = observe(rt, &h.ds);
+    let scheme = if h.v2 { ManifestNamingScheme::V2 } else { ManifestNamingScheme::V1 };
+    let case = json!({"arm": "e2e", "place": format!("{:?}", h.place), "history": h.log, "after": step, "v2_names": h.v2,
+        "attached": h.attached, "detached": h.detached, "read_dir": obs.read_dir, "listing": obs.listing,
+        "is_local": obs.is_local, "lexical_flag": obs.flag});
+    // ---- implementation: checkout_latest, latest_version_id, versions()
+    let mut c = h.ds.clone();
+    let latest = catch(|| rt.block_on(async { c.checkout_latest().await.map(|_| c.manifest_location().clone()) }));
+    let res = match &latest {
+        Err(_) => LRes::Panic,
+        Ok(Ok(loc)) => LRes::Found(loc.version, loc.path.filename().unwrap().to_string(), loc.naming_scheme),
+        Ok(Err(lance::Error::NotFound { .. })) | Ok(Err(lance::Error::DatasetNotFound { .. })) => LRes::NotFound,
+        Ok(Err(_)) => LRes::Err,
+    };
+    let latest_id = catch(|| rt.block_on(h.ds.latest_version_id())).ok().and_then(|r| r.ok());
+    let versions: Option<Vec<u64>> = catch(|| rt.block_on(h.ds.versions())).ok().and_then(|r| r.ok()).map(|v| v.iter().map(|x| x.version).collect());
+
+    // ---- model side
+    st_latest.push(
+        format!("({}, {}, {}, {})", coq::b(obs.is_local), coq::b(obs.flag), names_coq(&obs.read_dir), names_coq(&obs.listing)),
+        res.coq(),
+        json!({"case": case, "result": res.json()}),
+    );
+    if let Some(vs) = &versions {
+        st_vers.push(names_coq(&obs.listing), coq::nlist(vs.iter()), json!({"case": case, "versions": vs}));
+    }
+    sink.count(&format!("e2e:{:?}:{}", h.place, if h.v2 { "v2" } else { "v1" }));
+    sink.nontrivial(&format!("e2e{:?}{:?}", obs.listing, h.log));
+
+    // ---- direct oracle
+    let mut bad: Vec<String> = vec![];
+    let max = h.attached.iter().max().copied();
+    let expect = max.map(|m| LRes::Found(m, fname(scheme, m), scheme));
+    if Some(&res) != expect.as_ref() {
+        bad.push(format!("checkout_latest gave {:?}, the history's highest attached version is {:?}", res, max));
+    }
+    if latest_id != max {
+        bad.push(format!("latest_version_id = {:?}, expected {:?}", latest_id, max));
+    }
+    let want: Vec<u64> = h.attached.iter().copied().collect();
+    if versions.as_ref() != Some(&want) {
+        bad.push(format!("versions() = {:?}, expected {:?}", versions, want));
+    }
+    // every committed version sits under exactly its canonical name; detached ones under d<version>.manifest
+    let present: BTreeSet<&str> = obs.listing.iter().map(|s| s.as_str()).collect();
+    for v in &h.attached {
+        if !present.contains(fname(scheme, *v).as_str()) {
+            bad.push(format!("manifest of version {v} is not at {}", fname(scheme, *v)));
+        }
+    }
+    for d in &h.detached {
+        if d >> 63 != 1 {
+            bad.push(format!("detached version {d} has no top bit"));
+        }
+        if !present.contains(format!("d{d}.manifest").as_str()) {
+            bad.push(format!("detached manifest d{d}.manifest missing"));
+        }
+        match catch(|| rt.block_on(h.ds.checkout_version(*d))) {
+            Ok(Ok(dd)) if dd.version().version == *d => {}
+            _ => bad.push(format!("detached version {d} cannot be checked out")),
+        }
+    }
+    let manifests = obs.listing.iter().filter(|n| n.ends_with(".manifest")).count();
+    if manifests != h.attached.len() + h.detached.len() {
+        bad.push(format!("{} manifest files for {} attached + {} detached versions", manifests, h.attached.len(), h.detached.len()));
+    }
+    if bad.is_empty() {
+        sink.oracle_ok();
+    } else {
+        sink.oracle_fail(None, &format!("e2e: {}", bad.join("; ")), case);
+    }
+}
+
+fn start(rt: &Runtime, rng: &mut Rng, place: Place, v2: bool, key: u64) -> Hist {
+    let mut params = WriteParams { enable_v2_manifest_paths: v2, ..Default::default() };
+    let (uri, tmp) = match place {
+        Place::Local => {
+            let t = tempfile::tempdir().unwrap();
+            (t.path().canonicalize().unwrap().join("ds").to_string_lossy().to_string(), Some(t))
+        }
+        Place::Memory => (format!("memory://c33_{key}"), None),
+        Place::Custom => {
+            let url = url::Url::parse(&format!("memory:///c33_custom_{key}")).unwrap();
+            #[allow(deprecated)]
+            {
+                params.store_params = Some(ObjectStoreParams {
+                    object_store: Some((Arc::new(ShufStore { inner: Arc::new(InMemory::new()), key }), url.clone())),
+                    ..Default::default()
+                });
+            }
+            params.commit_handler = Some(Arc::new(lance_table::io::commit::ConditionalPutCommitHandler));
+            (url.to_string(), None)
+        }
+    };
+    let n = rng.range(1, 5) as i32;
+    let ds = rt.block_on(Dataset::write(RecordBatchIterator::new(vec![Ok(batch(0, n))], schema()), &uri, Some(params.clone()))).unwrap();
+    let mut attached = BTreeSet::new();
+    attached.insert(ds.version().version);
+    Hist { ds, attached, detached: vec![], v2, place, params, next_id: n, _tmp: tmp, log: vec![format!("write({n} rows, v2_names={v2})")] }
+}
+
+fn step(rt: &Runtime, rng: &mut Rng, h: &mut Hist) -> String {
+    let choice = rng.below(10);
+    let append_params = WriteParams { mode: WriteMode::Append, ..h.params.clone() };
+    let name = match choice {
+        0..=3 => {
+            let n = rng.range(1, 4) as i32;
+            let b = batch(h.next_id, n);
+            h.next_id += n;
+            rt.block_on(h.ds.append(RecordBatchIterator::new(vec![Ok(b)], schema()), Some(append_params))).unwrap();
+            h.attached.insert(h.ds.version().version);
+            format!("append({n})")
+        }
+        4 | 5 => {
+            // detached commit built from uncommitted fragments
+            let b = batch(1000 + h.next_id, 2);
+            let tx = rt.block_on(InsertBuilder::new(Arc::new(h.ds.clone())).with_params(&append_params).execute_uncommitted(vec![b])).unwrap();
+            let r = catch(|| {
+                rt.block_on(Dataset::commit_detached(
+                    Arc::new(h.ds.clone()),
+                    tx.operation,
+                    Some(h.ds.version().version),
+                    h.params.store_params.clone(),
+                    h.params.commit_handler.clone(),
+                    h.ds.session(),
+                    h.v2,
+                ))
+            });
+            match r {
+                Ok(Ok(d)) => {
+                    h.detached.push(d.version().version);
+                    format!("commit_detached -> {}", d.version().version)
+                }
+                Ok(Err(e)) => format!("commit_detached refused ({})", e.to_string().chars().take(60).collect::<String>()),
+                Err(_) => "commit_detached panicked".to_string(),
+            }
+        }
+        6 => {
+            let k = rng.below(h.next_id.max(1) as u64);
+            rt.block_on(h.ds.delete(&format!("id = {k}"))).unwrap();
+            h.attached.insert(h.ds.version().version);
+            format!("delete(id = {k})")
+        }
+        7 => {
+            let vs: Vec<u64> = h.attached.iter().copied().collect();
+            let k = *rng.pick(&vs);
+            let mut old = rt.block_on(h.ds.checkout_version(k)).unwrap();
+            rt.block_on(old.restore()).unwrap();
+            h.ds = old;
+            h.attached.insert(h.ds.version().version);
+            format!("restore({k})")
+        }
+        8 if !h.v2 => {
+            rt.block_on(h.ds.migrate_manifest_paths_v2()).unwrap();
+            h.v2 = true;
+            h.params.enable_v2_manifest_paths = true;
+            "migrate_manifest_paths_v2".to_string()
+        }
+        _ => {
+            if h.place == Place::Local {
+                let uri = h.ds.uri().to_string();
+                h.ds = rt.block_on(Dataset::open(&uri)).unwrap();
+                "reopen".to_string()
+            } else {
+                let mut c = h.ds.clone();
+                rt.block_on(c.checkout_latest()).unwrap();
+                h.ds = c;
+                "checkout_latest".to_string()
+            }
+        }
+    };
+    h.log.push(name.clone());
+    name
+}
+
+pub fn run(args: &Args, sink: &mut Sink, rt: &Runtime) {
+    let mut rng = Rng::new(args.seed ^ 0xE2E);
+    let mut st_latest = Stream::new("e2e_latest", REQ, "chk_latest", "bool * bool * list name * list name", "lres");
+    st_latest.shard = 120;
+    let mut st_vers = Stream::new("e2e_versions", REQ, "chk_versions", "list name", "list N");
+    st_vers.shard = 120;
+
+    // fixed history first: DESIGN §6 F3 at the Dataset level (memory store, V2 names, versions 1-2, one detached commit)
+    // and the same on the custom store without lexical ordering (68164c9)
+    for place in [Place::Memory, Place::Custom, Place::Local] {
+        let mut h = start(rt, &mut rng, place, true, 900 + place as u64);
+        let ap = WriteParams { mode: WriteMode::Append, ..h.params.clone() };
+        rt.block_on(h.ds.append(RecordBatchIterator::new(vec![Ok(batch(100, 2))], schema()), Some(ap.clone()))).unwrap();
+        h.attached.insert(h.ds.version().version);
+        h.log.push("append(2)".into());
+        let tx = rt.block_on(InsertBuilder::new(Arc::new(h.ds.clone())).with_params(&ap).execute_uncommitted(vec![batch(200, 2)])).unwrap();
+        let d = rt
+            .block_on(Dataset::commit_detached(Arc::new(h.ds.clone()), tx.operation, Some(h.ds.version().version), h.params.store_params.clone(), h.params.commit_handler.clone(), h.ds.session(), true))
+            .unwrap();
+        h.detached.push(d.version().version);
+        h.log.push(format!("commit_detached -> {}", d.version().version));
+        check_state(rt, sink, &mut st_latest, &mut st_vers, &h, "fixed: F3 history");
+        sink.count("corpus:e2e-history");
+    }
+
+    let n_hist = args.vol(8, 60);
+    for i in 0..n_hist {
+        let place = match i % 4 {
+            0 | 1 => Place::Local,
+            2 => Place::Memory,
+            _ => Place::Custom,
+        };
+        let v2 = rng.chance(1, 2);
+        let mut h = start(rt, &mut rng, place, v2, i as u64);
+        check_state(rt, sink, &mut st_latest, &mut st_vers, &h, "write");
+        for _ in 0..rng.range(3, args.vol(6, 9) as u64) {
+            let s = step(rt, &mut rng, &mut h);
+            check_state(rt, sink, &mut st_latest, &mut st_vers, &h, &s);
+        }
+    }
+    sink.add(st_latest);
+    sink.add(st_vers);
+}
